@@ -80,7 +80,7 @@ def main():
         must = tuple(must) if i['must']['kind'] == 'tuple' else list(must)
         input_data.append(M.MultiprocessingInput(i['name'], i['nice'], i['start'], i['end'], i['scale'], must, i['n']))
     kwargs = dict(verbose=False, max_procs=plan['max_procs'], perform_memory_check=plan.get('memcheck', True),
-                  avoid_crashes=plan.get('avoid_crashes', True))
+                  avoid_crashes=plan['attempts'][attempt].get('avoid_crashes', plan.get('avoid_crashes', True)))
     if attempt > 0 or not plan.get('first_force_restart', True):
         kwargs['force_restart'] = False
     if plan.get('postprocess'):
